@@ -64,6 +64,7 @@ from concurrent.futures import ThreadPoolExecutor
 from vf import build, tlc, trace
 from vf import run as hrun
 from vf.core import InfraError
+from checks.deferred import Deferred
 
 LEVEL = "model_checking"
 READY = True
@@ -215,6 +216,15 @@ def _gen(ctx, cfg, label):
     return r
 
 
+def _defer(ctx, msg):
+    """an infrastructure finding that a change to the library can provoke (a driver that hangs or dies early, classes / event kinds that are empty for that reason):
+    remembered, everything recorded is still judged by TLC, settled at the end of run(); without a run() in progress (replay of a stored case) it is raised at once"""
+    d = getattr(ctx, "_deferred", None)
+    if d is None:
+        raise InfraError(msg)
+    d.add(msg)
+
+
 def _replay_cases(ctx, emits, rd, fams):
     exe = _exe()
     cases = os.path.join(rd, "cases.txt")
@@ -228,7 +238,7 @@ def _replay_cases(ctx, emits, rd, fams):
         fam = j[3]
         ev = hrun.read_ndjson(j[2])
         if h.timed_out:
-            raise InfraError("c15 harness timed out on family %s" % fam)
+            _defer(ctx, "c15 harness timed out on family %s" % fam)
         if h.rc == 2:
             raise InfraError("c15 harness format error on %s: %s" % (fam, h.err[-600:]))
         done = [e for e in ev if e["e"] == "Done"]
@@ -249,7 +259,9 @@ def _replay_cases(ctx, emits, rd, fams):
                 ctx.violation("STATS:%s%s" % (fl["fn"], ":offset" if fl.get("shifted") else ""),
                               "%s on %s: %s: got %s, the definition gives %s" % (fl["fn"], _inputs(rec), fl["what"], fl["got"], fl["want"]),
                               dict(kind="case", rec=_inputs(rec)))
-        if h.rc != 0 or not done:
+        if h.timed_out:
+            pass                # not a verdict (a hang cannot be told from machine load); the comparisons made so far were reported above
+        elif h.rc != 0 or not done:
             crash = [e for e in ev if e["e"] == "Crash"]
             rec = emits[crash[-1]["i"]] if crash else {}
             kind = ":".join((h.san or "crash:rc%d" % h.rc).split(":")[:2])
@@ -320,14 +332,15 @@ def _trace_direction(ctx, rd, nproc, blocks, maxn, plan):
     for j, h in zip(jobs, res):
         ev = hrun.read_ndjson(j[1])
         if h.timed_out:
-            raise InfraError("c15 trace harness timed out")
-        if h.rc != 0:
+            _defer(ctx, "c15 trace harness timed out")
+        elif h.rc != 0:
             kind = ":".join((h.san or "crash:rc%d" % h.rc).split(":")[:2])
             fn = (h.san or "").split(":")[2] if h.san and h.san.count(":") >= 2 else "trace"
             ctx.violation("STATS:%s:%s" % (fn, kind), "random-input run seed=%s: %s\n%s" % (j[2], h.san or "rc=%d" % h.rc, _san_brief(h.err)),
                           dict(kind="trace", args=j[2:]))
         if not ev:
-            raise InfraError("c15 trace harness produced no events")
+            _defer(ctx, "c15 trace harness produced no events")
+            continue
         chunks.append((j, ev))
 
     for i, (j, ev) in enumerate(chunks):
@@ -347,7 +360,9 @@ def _trace_direction(ctx, rd, nproc, blocks, maxn, plan):
             ctx.traces(sum(1 for e in ev if e["e"] == "Reset"))
     plan.post.append(account)
     if not any(e["e"] == "Roc" for _, ev in chunks for e in ev):
-        raise InfraError("no Roc events recorded")
+        _defer(ctx, "no Roc events recorded")
+    if not chunks:
+        return
     # binding self-test: a wrong AUC / a wrong curve point / a wrong sum must be rejected
     first = chunks[0][1]
     blk = tlc.split_blocks(first)
@@ -439,17 +454,18 @@ def _cls_direction(ctx, rd, level, nparts, plan, only_part=None):
     for j, h in zip(jobs, res):
         ev = hrun.read_ndjson(j[1])
         if h.timed_out:
-            raise InfraError("c15 class-directed harness timed out")
-        if h.rc == 2:
+            _defer(ctx, "c15 class-directed harness timed out")
+        elif h.rc == 2:
             raise InfraError("c15 class-directed harness: %s" % h.err[-600:])
-        if h.rc != 0:
+        elif h.rc != 0:
             kind = ":".join((h.san or "crash:rc%d" % h.rc).split(":")[:2])
             fn = (h.san or "").split(":")[2] if h.san and h.san.count(":") >= 2 else "trace"
             last = next((e for e in reversed(ev) if e["e"] == "Reset"), {})
             ctx.violation("STATS:%s:%s" % (fn, kind), "class-directed run %s, after block %s: %s\n%s" % (j[2:], last.get("cls"), h.san or "rc=%d" % h.rc, _san_brief(h.err)),
                           dict(kind="cls", args=j[2:]))
         if not ev:
-            raise InfraError("c15 class-directed harness produced no events")
+            _defer(ctx, "c15 class-directed harness produced no events")
+            continue
         chunks.append((j, ev))
     seen = {}
     for _, ev in chunks:
@@ -458,7 +474,7 @@ def _cls_direction(ctx, rd, level, nparts, plan, only_part=None):
     if only_part is None and not ctx.violations:
         missing = [k for k in REQUIRED_EVENTS if not seen.get(k)]
         if missing:
-            raise InfraError("vacuous class-directed run: no event of kind %s" % missing)
+            _defer(ctx, "vacuous class-directed run: no event of kind %s" % missing)       # settled after the trace validation
 
     extra_poly, extra_da = [], []
     for i, (j, ev) in enumerate(chunks):
@@ -502,7 +518,7 @@ def _cls_direction(ctx, rd, level, nparts, plan, only_part=None):
         return
     lacking = [t for t in REQUIRED_CLASSES if not got.get(t)]
     if lacking and not ctx.violations:       # (a crashed driver run is already reported as a violation: its remaining blocks are missing for that reason)
-        raise InfraError("class-directed run did not emit the classes %s" % lacking)
+        _defer(ctx, "class-directed run did not emit the classes %s" % lacking)
     # binding self-tests, one per new event kind: a corrupted recorded field must be rejected
     allev = [e for _, ev in chunks for e in ev]
     blocks = tlc.split_blocks(allev)
@@ -510,10 +526,12 @@ def _cls_direction(ctx, rd, level, nparts, plan, only_part=None):
     def pick(pred):
         b = next((b for b in blocks if pred(b)), None)
         if b is None:
-            raise InfraError("binding self-test: no block of the wanted kind was recorded")
+            _defer(ctx, "binding self-test: no block of the wanted kind was recorded")
         return b
 
     def bind(cfg, evs, corrupt, label):
+        if evs is None:
+            return              # (deferred above: the driver died before it recorded such a block)
         plan.bind.append(lambda: trace.binding_selftest(ctx, "TraceStats", cfg, evs, corrupt, label))
 
     def mut(kind, fn):
@@ -557,7 +575,7 @@ def _cls_direction(ctx, rd, level, nparts, plan, only_part=None):
     bind("Trace_Stats_prop.cfg", da, mut("DaOut", bump(["ent", 1, 0])), "binding_da_auc")
     bind("Trace_Stats_prop.cfg", da, mut("DaOut", bump(["rocs", 1, 2, 0])), "binding_da_slice")
     da2 = pick(lambda b: any(e["e"] == "DaIn" and e["hist"] == "second" for e in b))
-    da2 = [e for e in da2 if e["e"] != "DaSlices"]
+    da2 = None if da2 is None else [e for e in da2 if e["e"] != "DaSlices"]
     bind("Trace_Stats.cfg", da2, mut("DaOut", bump(["dims", 0])), "binding_da_append_impl")
     ag = pick(lambda b: any(e["e"] == "Again" for e in b))
     bind("Trace_Stats.cfg", ag, mut("Again", bump(["rows"])), "binding_again_impl")
@@ -585,6 +603,7 @@ def run(ctx):
         "in the validate direction the rank order handed to TLC is computed by the harness from its own scores (qsort), and the monotone maps are checked to preserve it in double precision",
         "ASan/UBSan build: any sanitizer report is a violation",
     ]
+    ctx._deferred = Deferred(ctx)
     r = _gen(ctx, "MC_Stats_quick.cfg" if ctx.quick else "MC_Stats_thorough.cfg", "mc_gen_stats")
     count = {}
     for e in r.emits:
@@ -634,6 +653,7 @@ def run(ctx):
                        "as infrastructure if a required class was not emitted). A case is keyed by its input vectors (+ unit system, output history); regression cases "
                        "are non-trivial when the present truths are not constant, table cases when ny > 1 and nlv > 1" % ((5, 3) if ctx.quick else (6, 4)))
     ctx.cov["exhaustive"] = True
+    ctx._deferred.settle()
 
 
 def replay(ctx, body):
